@@ -44,6 +44,20 @@ SmartQuoteLocal ==
     /\ [i \in 1..Len(q.trail) |-> Uncurl(q.trail[i])] = I.trail
     /\ (I.word = <<>> => q = I)
 
+\* C09, text level: a candidate is the word's inner text wrapped in the (transliterated, possibly curled) punctuation of the
+\* typed text; stripping the candidate must give the inner text back, and the key under which it is stored must be the
+\* word the lookup uses.  Checked for wrappings over the statement's punctuation (N*, Q*), whose transliteration is the
+\* identity; "X*" stands for the inner text of a candidate (it has no punctuation of its own).
+PunctOnly(s) == \A i \in 1..Len(s) : s[i] \in {"N*", "Q*"}
+StripWrapped(parts, smart) ==
+    LET w == IF smart THEN SmartQuote(Parts(parts.pre, <<"X*">>, parts.trail)) ELSE Parts(parts.pre, <<"X*">>, parts.trail)
+        cand == Join3(w)
+    IN ImplSplit([i \in 1..Len(cand) |-> Uncurl(cand[i])], TRUE).word
+StoreRoundTrip ==
+    (I.word # <<>> /\ PunctOnly(I.pre) /\ PunctOnly(I.trail)) =>
+        /\ StripWrapped(I, TRUE) = <<"X*">> /\ StripWrapped(I, FALSE) = <<"X*">>
+        /\ ImplSplit(I.pre \o I.word \o I.trail, FALSE).word = I.word        \* re-typing the same text looks up the same key
+
 Strip(s) == s     \* class tokens ("L*") and literal characters are passed as they are
 PhonCfg(sug, eng, smart, ansi) ==
     [layout |-> "phonetic", psug |-> sug, fsug |-> FALSE, english |-> eng, ansi |-> ansi, smart |-> smart,
@@ -53,11 +67,16 @@ Scenario ==
     IF Mode = "wrapped" THEN
         LET p == PropSplit(text) IN
         [mc |-> "Script", site |-> "translit", variants |-> 3, reuse |-> FALSE,
-         vars |-> [P |-> Strip(p.pre), W |-> Strip(p.word), Q |-> Strip(p.trail)],
+         vars |-> [P |-> Strip(p.pre), W |-> Strip(p.word), Q |-> Strip(p.trail), X |-> <<"L*", "L*", "L*">>, Y |-> <<"L*">>],
+         \* A, B: brand-new contexts; C: the same context has composed another word before (and finished it), then types the
+         \* text with one wrong extra character that is removed again
          runs |-> [A |-> <<[op |-> "new", cfg |-> PhonCfg(FALSE, FALSE, TRUE, FALSE)], [op |-> "type", text |-> <<"$P", "$W", "$Q">>]>>,
-                   B |-> <<[op |-> "new", cfg |-> PhonCfg(FALSE, TRUE, FALSE, TRUE)], [op |-> "type", text |-> <<"$P", "$W", "$Q">>]>>],
+                   B |-> <<[op |-> "new", cfg |-> PhonCfg(FALSE, TRUE, FALSE, TRUE)], [op |-> "type", text |-> <<"$P", "$W", "$Q">>]>>,
+                   C |-> <<[op |-> "new", cfg |-> PhonCfg(FALSE, FALSE, TRUE, FALSE)], [op |-> "type", text |-> <<"$X">>], [op |-> "finish"],
+                           [op |-> "type", text |-> <<"$P", "$W", "$Q", "$Y">>], [op |-> "bs", ctrl |-> FALSE]>>],
          checks |-> <<[k |-> "translit", at |-> <<"A", 1>>, parts |-> <<"$P", "$W", "$Q">>, mode |-> "single"],
-                      [k |-> "translit", at |-> <<"B", 1>>, parts |-> <<"$P", "$W", "$Q">>, mode |-> "single"]>>]
+                      [k |-> "translit", at |-> <<"B", 1>>, parts |-> <<"$P", "$W", "$Q">>, mode |-> "single"],
+                      [k |-> "translit", at |-> <<"C", 4>>, parts |-> <<"$P", "$W", "$Q">>, mode |-> "single"]>>]
     ELSE
         [mc |-> "Script", site |-> "translit", variants |-> 2, reuse |-> TRUE,
          vars |-> [P |-> Strip(I.pre), W |-> Strip(I.word), Q |-> Strip(I.trail)],
@@ -68,5 +87,7 @@ Scenario ==
                       [k |-> "translit", at |-> <<"B", 1>>, parts |-> <<"$P", "$W", "$Q">>, mode |-> "cand"],
                       [k |-> "translit", at |-> <<"C", 1>>, parts |-> <<"$P", "$W", "$Q">>, mode |-> "cand"]>>]
 
-Emit == (Mode # "design" /\ text # <<>> /\ (Mode = "wrapped" => IsWrappedWord(text))) => PrintT(<<"REPLAY", ToJson(Scenario)>>)
+\* (the word of the statement ranges over [A-Za-z0-9]*: punctuation-only texts are the case of the empty word)
+PunctOnlyText == \A i \in 1..Len(text) : IsPunct(text[i])
+Emit == (Mode # "design" /\ text # <<>> /\ (Mode = "wrapped" => (IsWrappedWord(text) \/ PunctOnlyText))) => PrintT(<<"REPLAY", ToJson(Scenario)>>)
 =============================================================================
